@@ -204,7 +204,7 @@ def theta_validation(ctx):
                           {'family': fam, 'theta': t, 'repro': f"from copulas.bivariate import Bivariate\nc=Bivariate(copula_type='{fam}'); c.theta={t!r}\nc.check_fit()\n"})
 
 
-def run(ctx):
+def _run(ctx):
     quick = ctx.tier == 'quick'
     status = biv.generate(ctx)
     needed = [p.format(f=f) for f in FAMS for p in NEEDED]
@@ -237,3 +237,16 @@ def run(ctx):
     ctx.extra['witness_search_hits'] = found
     ctx.assumptions += ['Gumbel at an exact 0 coordinate (IEEE log 0 = -inf) is outside the real-number model; covered only by the implementation-side boundary oracle',
                         'np.power(x, y) is modelled for x > 0 and for 0 ** (y > 0)']
+
+
+def run(ctx):
+    """the check proper, then the history / memory-layout oracles on the real classes (always, also after a broken translation)"""
+    from .. import extra_oracles
+    try:
+        _run(ctx)
+    finally:
+        try:
+            extra_oracles.biv_extra(ctx, 'C06')
+        except Exception as ex:       # the oracle itself must never hide the result of the check proper
+            ctx.obligation('oracle:extra:raised', False, 'correspondence', repr(ex))
+            ctx.violation('oracle:extra:raised:' + type(ex).__name__, 'history/layout oracle raised ' + repr(ex), {'repro': '# see tools/vf/extra_oracles.py'})
